@@ -153,7 +153,7 @@ def impl(case):
     if fn == "cv_score":
         coords, shape2d, data, weights, cvspec, scoring, est = a
         cs, d_arg, w_arg = _arrays(coords, shape2d, data, weights)
-        estimator = MomentGridder() if est == "moment" else vd.Trend(1)
+        estimator = MomentGridder(tag=2) if est == "moment" else vd.Trend(1)     # fit lingers 2 ms after writing its state
         before = dict(estimator.__dict__)
 
         def run():
